@@ -2,7 +2,7 @@
    Only statements, `exact <lemma>` and Print Assumptions live here. *)
 From Coq Require Import ZArith List Bool String Lia.
 From BNP Require Import Base.Prims Model.C04 Proofs.C04 Proofs.C04_raw Proofs.C04_bam Proofs.C04_lines Proofs.C04_sam
-  Proofs.C04_crlf Proofs.C04_oneline Proofs.C04_repl Proofs.C04_samjoin Proofs.C04_session Gen.C04 Bridge.C04.
+  Proofs.C04_crlf Proofs.C04_samcrlf Proofs.C04_oneline Proofs.C04_repl Proofs.C04_samjoin Proofs.C04_session Gen.C04 Bridge.C04.
 Import ListNotations.
 Open Scope Z_scope.
 
@@ -140,6 +140,21 @@ Theorem C04_sam_end_to_end :
 Proof. exact sam_selection_end_to_end. Qed.
 Print Assumptions C04_sam_end_to_end.
 
+(* T1 and END TO END for SAM with LF **or CRLF** line ends (code since /repo 6bbd290): entry ends before the CR adjustment,
+   the 11th field and the tags without the CR; every program without replacement satisfies the Spec *)
+Theorem C04_from_raw_sam_crlf :
+  forall e recs, recs <> [] -> (e = [LF] \/ e = [CR; LF]) -> Forall (sam_rec_wf2 e) recs ->
+    exists x, from_sam (layout FSam recs) = Some x /\ Inv x /\ view x = map (gview FSam) recs /\ x_contig x = true
+              /\ width_ok FSam (view x).
+Proof. exact from_sam_correct2. Qed.
+Print Assumptions C04_from_raw_sam_crlf.
+
+Theorem C04_sam_crlf_end_to_end :
+  forall v e recs p out, recs <> [] -> (e = [LF] \/ e = [CR; LF]) -> Forall (sam_rec_wf2 e) recs -> repl_free p = true ->
+    model_out_v v FSam (layout FSam recs) p = Some out -> spec_out_ok FSam recs p (Some out) = true.
+Proof. exact sam_selection_end_to_end2. Qed.
+Print Assumptions C04_sam_crlf_end_to_end.
+
 (* T1 for the REPAIRED delimited extractor, LF or CRLF (all records of the file with the same terminator): a record
    includes its whole line terminator, the last field excludes the CR *)
 Theorem C04_from_raw_delimited_repaired :
@@ -272,6 +287,7 @@ Theorem C04_source_tie :
   /\ (forall v x, x_contig x = false -> write v FBam (SLazy x []) = Some (gen_bam_gather x))
   /\ gen_bam_mc_inplace = inplace_compaction FBam /\ (forall s, touch FBam s = s)
   /\ gen_mc_inplace = inplace_compaction (FDelim 0)
+  /\ (forall x, gen_sam_extra x = sam_extra x) /\ gen_sam_entry_ends_before_cr = true /\ (forall e, gen_sam_entry_end e = e + 1)
   /\ (forall d, gen_delim_field_start d = m_delim_start d /\ gen_delim_entry_end d = m_delim_entry_end d)
   /\ gen_delim_entry_ends_before_cr = v_crlf current
   /\ (forall l r n, gen_sam_cell_ends l = m_sam_cell_ends l /\ gen_sam_drop_cell r n = m_sam_drop_cell r n
@@ -290,6 +306,7 @@ Proof.
   split; [intros s e ns; repeat (split; [tie|]); tie|].
   split; [exact b_bam_gather|]. split; [exact b_bam_write|]. split; [exact b_bam_mc_inplace|]. split; [exact b_bam_touch|].
   split; [exact (proj1 b_mc_inplace)|].
+  split; [exact b_sam_extra|]. split; [exact b_sam_entry_ends_before_cr|]. split; [exact b_sam_entry_end|].
   split; [intros d; split; tie|].
   split; [exact b_delim_entry_ends_before_cr|].
   intros l r n; repeat (split; [tie|]); tie.
@@ -330,12 +347,14 @@ Theorem C04_gtf_pinned_refuted :
 Proof. exists w_gtf, PSrc. vm_compute. reflexivity. Qed.
 Print Assumptions C04_gtf_pinned_refuted.
 
-(* SAM with CRLF line ends cannot even be read (the model returns None where the library raises AttributeError) *)
-Definition w_sam_crlf := [ {| g_cols := g_cols (hd {| g_cols := []; g_eol := [] |} w_sam); g_eol := [13; 10] |} ].
-Theorem C04_sam_crlf_pinned_refuted :
-  exists recs p, spec_out_ok FSam recs p (model_out_v pinned FSam (layout FSam recs) p) = false.
-Proof. exists w_sam_crlf, PSrc. vm_compute. reflexivity. Qed.
-Print Assumptions C04_sam_crlf_pinned_refuted.
+(* SAM with CRLF line ends: unreadable before /repo 6bbd290 (finding C04-sam-crlf-unreadable, now fixed; the model follows HEAD);
+   a reordering selection on a CRLF SAM witness now writes the original bytes *)
+Definition w_sam_crlf := [ {| g_cols := g_cols (hd {| g_cols := []; g_eol := [] |} w_sam); g_eol := [13; 10] |};
+                           {| g_cols := g_cols (hd {| g_cols := []; g_eol := [] |} w_sam) ++ [unhex "4e4d3a693a30"]; g_eol := [13; 10] |} ].
+Example C04_sam_crlf_witness :
+  spec_out_ok FSam w_sam_crlf (PIdx [1; 0; 0] PSrc) (model_out_v repaired FSam (layout FSam w_sam_crlf) (PIdx [1; 0; 0] PSrc)) = true
+  /\ spec_out_ok FSam w_sam_crlf (PRepl 4 [[55]; [56]] PSrc) (model_out_v repaired FSam (layout FSam w_sam_crlf) (PRepl 4 [[55]; [56]] PSrc)) = true.
+Proof. vm_compute. split; reflexivity. Qed.
 
 (* with the proposed repairs (notes/C04.fix-1.diff, fix-2.diff; Model.C04.repaired) the CRLF and SAM witnesses pass *)
 Example C04_crlf_fixed_witness :
